@@ -7,6 +7,7 @@ import Nuts.Model.Tx
 import NutsProofs.Lemmas.Assoc
 import NutsProofs.Lemmas.MergeReopen
 import NutsProofs.Lemmas.MergeCrash
+import NutsProofs.Pins.Merge
 namespace NutsProofs.C16
 open Nuts Nuts.Model Nuts.Model.DB NutsProofs
 
@@ -214,5 +215,9 @@ theorem C16_crash_inside_file_of_merge (opt0 : Opts) (ops : List Op) (hok : OpsO
     obtain ⟨c0, c1, c2, c3, c4⟩ := crash_after_rewrite sk now hminvk hmk1 f hf tid hne opt hmo t hle ht b
     exact ⟨c0, fun key => by rw [c1 key, a1 key], by rw [c2, a2], fun st en => by rw [c3 st en, a3 st en],
       fun pre mt => by rw [c4 pre mt, a4 pre mt]⟩
+
+/-- **regenerated tie.** the order of the steps of `Merge` for one file — scan, select, rewrite transaction, remove — which the crash-point theorems above quantify over, is read off the source on this run (`NutsProofs.Facts.expectedMergeStmts`). -/
+theorem C16_merge_statements_regenerated : NutsGen.F.mergeStmts = NutsProofs.Facts.expectedMergeStmts :=
+  NutsProofs.Facts.merge_stmts_ok
 
 end NutsProofs.C16
